@@ -273,7 +273,7 @@ class SupervisedOPF(OPF):
 
         logger.info("Learning the best classifier ...")
 
-        max_acc = 0
+        max_acc = -1
         previous_acc = 0
 
         t = 0
@@ -326,7 +326,7 @@ class SupervisedOPF(OPF):
             )
 
             if delta < 0.0001 or t == n_iterations:
-                self = best_opf
+                self.__dict__.update(best_opf.__dict__)
 
                 logger.info(
                     "Best classifier has been learned over iteration %d.", best_t + 1
